@@ -763,7 +763,7 @@ func checkC11Append(c *Ctx, p *Program) {
 func checkC11InnerPtr(c *Ctx, p *Program) {
 	var fs []*ssa.Function
 	for f := range p.AllFuncs {
-		if f.Blocks != nil && isCirclFunc(f) && f.Synthetic == "" && f.Parent() == nil {
+		if f.Blocks != nil && isCirclFunc(f) && sourceFunc(f) && f.Parent() == nil {
 			fs = append(fs, f)
 		}
 	}
@@ -905,7 +905,7 @@ func checkC11SharedPtr(c *Ctx, p *Program) {
 	mod := p.Mod()
 	var fs []*ssa.Function
 	for f := range p.AllFuncs {
-		if f.Blocks != nil && isCirclFunc(f) && f.Synthetic == "" && f.Parent() == nil && f.Signature.Recv() != nil && f.Object() != nil && f.Object().Exported() {
+		if f.Blocks != nil && isCirclFunc(f) && sourceFunc(f) && f.Parent() == nil && f.Signature.Recv() != nil && exportedName(f) {
 			fs = append(fs, f)
 		}
 	}
@@ -943,6 +943,12 @@ func checkC11SharedPtr(c *Ctx, p *Program) {
 				ms := p.SSA.MethodSets.MethodSet(ld.Type())
 				for i := 0; i < ms.Len(); i++ {
 					m := p.SSA.MethodValue(ms.At(i))
+					if m == nil {
+						// a method of a generic type that is not instantiated here: use the generic body
+						if fo, ok := ms.At(i).Obj().(*types.Func); ok {
+							m = p.SSA.FuncValue(fo.Origin())
+						}
+					}
 					if m == nil || m.Blocks == nil {
 						continue
 					}
@@ -978,7 +984,7 @@ func checkC11Reader(c *Ctx, p *Program) {
 	deterministic := regexp.MustCompile(`^\(\*?sign/(dilithium/mode[235]|mldsa/mldsa(44|65|87)|ed25519|ed448|eddilithium[23])\.PrivateKey\)\.Sign$`)
 	var fs []*ssa.Function
 	for f := range p.AllFuncs {
-		if f.Blocks != nil && isCirclFunc(f) && f.Synthetic == "" && f.Parent() == nil {
+		if f.Blocks != nil && isCirclFunc(f) && sourceFunc(f) && f.Parent() == nil {
 			fs = append(fs, f)
 		}
 	}
@@ -1303,4 +1309,16 @@ func init() {
 			}
 		}
 	}
+}
+
+// exportedName: the function (or, for an instantiation, the generic function it was made from) has an
+// exported name.
+func exportedName(f *ssa.Function) bool {
+	if o := f.Object(); o != nil {
+		return o.Exported()
+	}
+	if g := f.Origin(); g != nil && g.Object() != nil {
+		return g.Object().Exported()
+	}
+	return false
 }
